@@ -672,14 +672,18 @@ func ParseSInterP(buf string) frt.Tuple2[string, []string] {
 		c := buf[i]
 		if c == '\\' {
 			// write though escape seq to Golang string literal.
-			// This is necessary for brace escape.
-			res.WriteByte(c)
 			i++
 			if i == end {
 				panic("escape just before end, wrong")
 			}
 			c2 := buf[i]
-			res.WriteByte(c2)
+			if c2 == '{' || c2 == '}' {
+				// brace escape. Go has no such escape, write brace itself.
+				res.WriteByte(c2)
+			} else {
+				res.WriteByte(c)
+				res.WriteByte(c2)
+			}
 		} else if c == '{' {
 			i++
 			vbeg := i
